@@ -175,6 +175,10 @@ def e2_checks(pid, tier, seed):
         out.append(spec('total_sym%d' % K, 'chk_total', S(K), '%d fully symbolic bytes through every transport entry point, 3 buffer capacities, interleaved reset/finalize' % K, must_cover=[5]))
         out.append(spec('total_start_sym%d' % (K - 1), 'chk_total', START + S(K - 1), 'start sequence + %d symbolic bytes through every transport entry point' % (K - 1), must_cover=[5]))
         out.append(spec('arraybuf_big', 'chk_arraybuf_big', S(3), 'ArrayBuf<65600> filled across the 2^16 boundary (narrow length counters)', must_cover=[18], max_steps=20000000))
+        # stack growth: the same stream with 40 vs 160 noise bytes must reach the same call depth
+        gfr = list(_lib().transport_encode(bytes([0x12, 0x34, 0x56, 0x78])))
+        for L in (40, 160):
+            out.append(spec('total_noise%d' % L, 'chk_total', [0x00] * L + gfr + S(1), 'every transport entry point on %d concrete noise bytes, a frame and one symbolic byte (call depth must not depend on the noise length)' % L, must_cover=[5], depth_group='noise', scale_input=(3000000, (bytes(gfr) + b'\x00').hex())))
         out.append(spec('total_end', 'chk_total', START + S(2) + END + S(3), 'frame with symbolic data and symbolic end-sequence payload', must_cover=[5]))
     elif pid == 'C07':
         for n in (range(0, 6) if q else range(0, 9)):
@@ -210,6 +214,14 @@ def e2_checks(pid, tier, seed):
         for variant in range(6):
             out.append(spec('concat_v%d' % variant, 'chk_concat', [variant] + S(K), 'boundary kind %d (0 delivered, 1 invalid message, 2 invalid escape, 3 out of memory, 4 reset, 5 finalize) then %d fully symbolic bytes vs a new decoder' % (variant, K), must_cover=[14]))
             out.append(spec('concat_v%d_frame' % variant, 'chk_concat', [variant] + START + S(2) + END + S(3), 'boundary kind %d then a frame with symbolic data / pad / checksum vs a new decoder' % variant, must_cover=[14]))
+    elif pid == 'C12':
+        tail = [0x62, 0x00, 0x62, 0x00, 0x72, 0x63, 0x02, 0x01, 0x71, 0x01, 0x63] + S(2) + [0x00]
+        for L in ((7, 8, 254, 255, 256, 300) if q else (1, 6, 7, 8, 9, 127, 254, 255, 256, 257, 300, 512, 70000)):
+            out.append(spec('c12_tlf_long_list_%d' % L, 'chk_parse_c12', [0xF0] + [0x80] * L + [('nib', 0x0)] + [0x01] + tail, 'close message whose outer list TLF is continued over %d zero-nibble bytes (last nibble and checksum symbolic): both parsers vs the reference reader' % L, max_steps=30000000))
+            out.append(spec('c12_tlf_long_str_%d' % L, 'chk_parse_c12', [0x76, 0x80] + [0x80] * L + [('nib', 0x0)] + S(2) + tail, 'transaction-id TLF continued over %d zero-nibble bytes, last nibble symbolic' % L, max_steps=30000000))
+        # fully symbolic TLFs of up to 9 bytes at the transaction-id position, seen through both parsers
+        for n in ((2, 4) if q else (1, 2, 3, 5, 9)):
+            out.append(spec('c12_tid_tlf_n%d' % n, 'chk_parse_c12', [0x76] + S(n) + [0xAA] + tail, 'transaction-id TLF replaced by %d symbolic bytes (+1 data byte), checksum symbolic' % n))
     elif pid == 'C18':
         out.append(spec('arraybuf_big', 'chk_arraybuf_big', S(3), 'ArrayBuf<65600>: 65534 bytes by extend_from_slice, then 3 symbolic pushes / a 3-byte extend across the 2^16 boundary, truncate and clear (a narrower length counter would wrap)', must_cover=[18], max_steps=20000000))
     elif pid == 'C11':
@@ -248,6 +260,8 @@ def e2_checks(pid, tier, seed):
         out = _parser_checks(pid, tier, seed)
         if pid == 'C06':
             for sp in out: sp['report'] = ('fail', 'panic', 'budget', 'alloc')
+    for sp in out:
+        sp.setdefault('max_seconds', 600 if q else 2400)
     return out
 
 
@@ -286,6 +300,12 @@ def _parser_checks(pid, tier, seed):
                 out += file_specs('chk_mut_' + g, g, tier, seed, [0], names=SMALL_FILES + VALUE_FILES[:2], nsym=12)
         else:
             out += file_specs('chk_mut_c03', 'c03', tier, seed, [0], names=None, nsym=(14 if q else 28))
+            # valid encodings the generator does not emit: the short checksum form, choice tags in 3/4-byte encodings
+            # (inputs of these families that are not well-formed are not judged here)
+            idp = [0x62, 0x00, 0x62, 0x00, 0x72, 0x63, 0x02, 0x01, 0x71, 0x01]
+            out.append(spec('c03_shortcrc', 'chk_parse_c03w', [0x76, 0x03] + S(2) + idp + [0x62] + S(1) + [0x00], 'close message, symbolic transaction id, checksum in the 1-byte form 62 xx (symbolic): wherever this is a well-formed file both parsers must return it', must_cover=[32]))
+            out.append(spec('c03_shortcrc2', 'chk_parse_c03w', [0x76, 0x03] + S(2) + idp + [0x62] + S(1) + [0x00] + [0x76, 0x03] + S(2) + idp + [0x63] + S(2) + [0x00], 'two close messages, the first with the short checksum form', must_cover=[32]))
+            out.append(spec('c03_tag4', 'chk_parse_c03w', [0x76, 0x02, 0x11, 0x62, 0x00, 0x62, 0x00, 0x72, 0x65, 0x00, 0x00] + S(2) + [0x71, 0x01, 0x63] + S(2) + [0x00], 'close/other message with the choice tag in the 4-byte encoding (low half symbolic), checksum symbolic', must_cover=[32]))
             # the same files against the GENERATOR's own expected-content trace (oracle independent of the reference reader)
             import random
             g_ = _lib(); rnd = random.Random(seed + 1)
